@@ -947,6 +947,90 @@ def n33_canonical_local(pieces, name, pat_s, file, applied):
     applied.add("N33", file, pieces[si[0]].line, f"local `{cur}` renamed to its canonical name `{name}` ({n} occurrences)")
 
 
+def fn_param_names(pieces):
+    """names of the non-self parameters of the fn item in `pieces`, by position (None for pattern parameters)"""
+    si = sig(pieces)
+    k = next((x for x in range(len(si)) if pieces[si[x]].text == "fn" and pieces[si[x]].tkind == "ident"), None)
+    if k is None:
+        return None, None
+    j = k + 2
+    if j < len(si) and pieces[si[j]].text == "<":
+        d = 0
+        while j < len(si):
+            t = pieces[si[j]].text
+            if t == "<":
+                d += 1
+            elif t == ">":
+                d -= 1
+            elif t == ">>":
+                d -= 2
+            j += 1
+            if d <= 0:
+                break
+    if j >= len(si) or pieces[si[j]].text != "(":
+        return None, None
+    close = _pmatch(pieces, si, j, None)
+    params = []
+    d = 0
+    start = j + 1
+    ang = 0
+    for x in range(j + 1, close + 1):
+        t = pieces[si[x]]
+        if x == close or (d == 0 and ang <= 0 and t.text == ","):
+            if x > start:
+                params.append((start, x))
+            start = x + 1
+            continue
+        if t.tkind == "punct" and t.text in OPEN:
+            d += 1
+        elif t.tkind == "punct" and t.text in CLOSE:
+            d -= 1
+        elif t.text == "<":
+            ang += 1
+        elif t.text == ">":
+            ang -= 1
+        elif t.text == ">>":
+            ang -= 2
+    names = []
+    for (a, b) in params:
+        toks = [pieces[si[x]].text for x in range(a, b)]
+        if "self" in toks[:3]:
+            continue
+        if toks and toks[0] == "mut":
+            toks = toks[1:]
+            a += 1
+        if len(toks) >= 2 and toks[1] == ":" and pieces[si[a]].tkind == "ident":
+            names.append(toks[0])
+        else:
+            names.append(None)
+    return names, si
+
+
+def n33_params(pieces, canon, file, applied):
+    """N33 for parameters: `//@ params a b c` gives the canonical names of the non-self parameters by position (`_` = leave);
+    a parameter that the source calls something else is renamed throughout the item"""
+    names, si = fn_param_names(pieces)
+    if names is None:
+        raise ExtractError("N33 params: cannot find the parameter list")
+    if len(names) != len(canon):
+        raise ExtractError(f"N33 params: the fn has {len(names)} parameters, the template names {len(canon)}")
+    for cur, want in zip(names, canon):
+        if want == "_" or cur is None or cur == want:
+            continue
+        si = sig(pieces)
+        if any(pieces[i].text == want and pieces[i].tkind == "ident" for i in si):
+            raise ExtractError(f"N33 params: canonical name `{want}` already occurs in the item")
+        n = 0
+        for pos, i in enumerate(si):
+            pc = pieces[i]
+            if pc.tkind == "ident" and pc.text == cur and not (pos > 0 and pieces[si[pos - 1]].text in (".", "::")):
+                pc.text = want
+                pc.kind = "rw"
+                pc.rule = "N33"
+                n += 1
+        applied.add("N33", file, pieces[si[0]].line, f"parameter `{cur}` renamed to its canonical name `{want}` ({n} occurrences)")
+
+
 def n12_break_value(pieces, name, file, applied):
     """`let NAME = loop { .. break E .. };` -> `let __brk; loop { .. { __brk = E; break; } .. } let NAME = __brk;`"""
     si = sig(pieces)
@@ -1399,6 +1483,9 @@ class Generator:
                         elif d == "n30":
                             opts["n30"] = True
                             cur = None
+                        elif d.startswith("params ") or d == "params":
+                            opts["params"] = d.split()[1:]
+                            cur = None
                         elif d.startswith("local "):
                             m = re.match(r'local\s+(\S+)\s+"((?:[^"\\]|\\.)*)"', d)
                             if not m:
@@ -1524,6 +1611,8 @@ class Generator:
             n32_canonical_loops(pieces, file, self.applied)
         for (nm, pat) in opts.get("locals", []):
             n33_canonical_local(pieces, nm, pat, file, self.applied)
+        if "params" in opts and loc["kind"] == "fn":
+            n33_params(pieces, opts["params"], file, self.applied)
         if opts.get("n19"):
             n19_byte_strings(pieces, file, self.applied)
         if opts.get("n29"):
